@@ -532,8 +532,12 @@ def docs_meshes(ctx, k):
         recs = [r for r in records_with_claim(kind) if not any(c.family == "global" or c.mesh_req != "any"
                                                                for c in component_records(r))]
         rng = ctx.rng(os.path.basename(f))
-        for rec in [recs[i] for i in rng.choice(len(recs), size=min(len(recs), ctx.scale(4, 12)), replace=False)]:
-            check_mesh_elem(ctx, mc, rec, {"file": os.path.basename(f)})
+        try:
+            for rec in [recs[i] for i in rng.choice(len(recs), size=min(len(recs), ctx.scale(4, 12)), replace=False)]:
+                check_mesh_elem(ctx, mc, rec, {"file": os.path.basename(f)})
+        except Skip as e:
+            ctx.drop("docs-mesh:" + str(e))
+            continue
         done += 1
     ctx.reached("docs-mesh", done)
 
